@@ -259,7 +259,7 @@ def gen_block(g, depth):
         body = [['lit', r.choice(['m1', 'msg two', ''])]] if k == 'raise0' or r.random() < 0.6 else gen_blocks(g, depth - 1, 1)
         if r.random() < 0.6:
             return ['raise', r.choice(RAISE_BY_NAME), None, body]
-        return ['raise', 'exc_cls', ['name', r.choice(['cls1', 'cls2', 'cls3'])], body]
+        return ['raise', 'exc_cls', ['name', r.choice(['cls1', 'cls2', 'cls3', 'ValueError', 'LookupError'])], body]
     if k in ('ret0', 'ret'):
         if r.random() < 0.8:
             return ['ret', ['n', r.choice(list(RET_VALUES) + ['f'])]]
@@ -363,7 +363,9 @@ def gen_case(r, depth):
           'seq2': {'l': [{'o': 1, 'a': [['w', 1]]}, {'o': 2, 'a': [['w', 2]]}]}, 'seq0': {'l': []},
           'wobj': {'o': 3, 'a': [['w', 3]]},
           'cls1': {'x': r.choice(RAISE_BY_EXPR), 'm': ''}, 'cls2': {'x': r.choice(RAISE_BY_EXPR), 'm': ''},
-          'cls3': {'x': 'E3', 'm': ''}, 'sub0': {'T': 1}}
+          'cls3': {'x': 'E3', 'm': ''}, 'sub0': {'T': 1},
+          # names of built-in exceptions bound to OTHER classes: an expression naming them must see the namespace's value
+          'ValueError': {'x': r.choice(['E3', 'KeyError']), 'm': ''}, 'LookupError': {'x': r.choice(['EM', 'E1']), 'm': ''}}
     ns.update(RET_VALUES)
     main = gen_blocks(g, depth, 3)
     g.in_sub = True
